@@ -27,7 +27,12 @@ RULE = ("random cursor descriptions (every cursor constructor / provider of the 
         "OpenSetCursorForQuery, incl. its Seek over a set symbol and the forward-only fallback over a composite "
         "symbol) and per-call providers (GetRelatedEntitiesCursor, IterateLinks) opened again and again on the rows of "
         "one store in sequences of 2-5 segments `open row; ops` (random worlds, and on a fixed world every "
-        "two-segment script with <= 2 and <= 1 operations per segment over every pair of rows); non-trivial = the "
+        "two-segment script with <= 2 and <= 1 operations per segment over every pair of rows); plus the LONG-KEY family: "
+        "for each length n in 62 63 64 65 127 128 255 256 1000 4096 a family around a common prefix P of n-1 bytes (P, a "
+        "shorter prefix, the siblings P+a P+b P+d, the extensions P+b\\x00 P+bz, short elements) as elements / ids / "
+        "roles of every cursor kind, driven with seek-heavy scripts whose targets are the family, absent neighbours, "
+        "truncations of the long targets at 62..256 bytes and short strings in turn, and as rows of the re-used runtime "
+        "symbol (long and short seeks alternating across rows); non-trivial = the "
         "script has at least one operation and the cursor is valid at some point; distinct = (description, script)")
 
 
@@ -80,6 +85,8 @@ def describe(case, impl, model, spec):
 # ------------------------------------------------------------------------------ known findings
 
 MATCHERS = {}
+
+_LEN_SPLIT = __import__("re").compile(r"[;,.+=/:]")
 
 
 # ------------------------------------------------------------------------------ shrinking
@@ -341,6 +348,18 @@ def run(ctx, replay_cases=None):
             hist["via:" + v] += 1
         if not c.startswith("X "):
             ops = c.split(" ")[1]
+            if len(c) > 300:
+                # length classes of the longest element and of the longest seek target of the case
+                def _cls(n):
+                    for b in (16, 62, 63, 64, 65, 127, 128, 255, 256, 1000, 4096):
+                        if n <= b:
+                            return "<=%d" % b
+                    return ">4096"
+                el = max((len(t) for t in _LEN_SPLIT.split(c.split(" ")[0])), default=0) // 2
+                tg = max((len(t) - 1 for t in _LEN_SPLIT.split(ops) if t[:1] in ("s", "t")), default=0) // 2
+                hist["long:max_element_len" + _cls(el)] += 1
+                if tg > 0:
+                    hist["long:max_seek_target_len" + _cls(tg)] += 1
             if c.startswith("R;"):
                 segs = [sg.split(":")[1] for sg in ops.split("/")]
                 hist["reuse_segments:%d" % len(segs)] += 1
